@@ -20,6 +20,16 @@ def hConcRoute : Handler := fun impl => do
     | _ => "na"
   return { model := "2400 0", oracle := oracle, label := if index b!"$1" dest = none then "no-placeholder" else "placeholder" }
 
-def handlers : List (String × Handler) := [ ("concget", hConcGet), ("concroute", hConcRoute) ]
+/-- concrefresh (C07): plain hits racing a stream of refreshes; a hit is one stored response (the read
+    side takes metadata and size from the descriptor it opened: Pins.getStorageMetadataShape; in the
+    interleaving model a hit's view is read from one `FileSt`) -/
+def hConcRefresh : Handler := fun impl => do
+  let _rounds ← pNat
+  let oracle := match impl with
+    | [t] => if t = "0" then "ok" else "bad:C07:a-hit-pairs-metadata-of-one-stored-response-with-bytes-of-another"
+    | _ => "na"
+  return { model := "0", oracle := oracle, label := "refresh-vs-6-readers" }
+
+def handlers : List (String × Handler) := [ ("concget", hConcGet), ("concroute", hConcRoute), ("concrefresh", hConcRefresh) ]
 
 end H.ConcStress
